@@ -1,6 +1,7 @@
 package c07
 
 import (
+	"perun.network/go-perun/wallet"
 	"context"
 	"math/big"
 
@@ -19,6 +20,30 @@ func (s *situation) deliver(to *channel.State) (sigOK bool, obs *observer, actor
 	return ok, obs, actor
 }
 
+// honestPayment: the peer pays the client an arbitrary amount with an ordinary
+// update that the user's handler accepts; afterwards s.cur is the new state.
+func (s *situation) honestPayment() {
+	to := s.cur.Clone()
+	to.Version++
+	d := gen.Bal()
+	peer := 1 - s.ownIdx
+	rt.Assume(to.Balances[0][peer].Cmp(d) >= 0)
+	to.Balances[0][peer] = new(big.Int).Sub(to.Balances[0][peer], d)
+	to.Balances[0][s.ownIdx] = new(big.Int).Add(to.Balances[0][s.ownIdx], d)
+	msg := &client.ChannelUpdateMsg{ChannelUpdate: client.ChannelUpdate{State: to, ActorIdx: channel.Index(peer)}, Sig: s.w.Sign(1, to)}
+	before, _ := accsOn(s.w, s.ch.ID())
+	go s.w.Client.VerifHandleChannelUpdate(client.UpdateHandlerFunc(func(_ *channel.State, _ client.ChannelUpdate, r *client.UpdateResponder) {
+		ctx, cancel := context.WithTimeout(context.Background(), 1000000000)
+		defer cancel()
+		_ = r.Accept(ctx)
+	}), s.w.PeerWire, msg)
+	rt.Quiesce()
+	after, _ := accsOn(s.w, s.ch.ID())
+	rt.Assert("c07.honest-payment-accepted", after == before+1)
+	s.cur = to
+	s.accBase = after
+}
+
 // NumSubFundingDev is the number of deviations in VerifC07SubFunding.
 const NumSubFundingDev = 7
 
@@ -30,6 +55,11 @@ func VerifC07SubFunding() {
 	sub := gen.Bals(2) // the sub-channel's initial balances
 	amount := new(big.Int).Add(sub[0], sub[1])
 	s.ch.VerifRegisterSubChannelFunding(S, channel.Balances{sub})
+	dev := pickDev(NumSubFundingDev)
+	if dev == 0 && s.phase == channel.Acting && rt.NondetBool() {
+		// the parent moves on between the accepted proposal and the funding update
+		s.honestPayment()
+	}
 	go func() {
 		ctx, cancel := context.WithTimeout(context.Background(), 5000000000)
 		defer cancel()
@@ -39,7 +69,7 @@ func VerifC07SubFunding() {
 	to.Version++
 	to.Balances = channel.Balances{gen.Bals(2)} // arbitrary debits
 	added := channel.SubAlloc{ID: S, Bals: []channel.Bal{amount}, IndexMap: []channel.Index{}}
-	switch pickDev(NumSubFundingDev) {
+	switch dev {
 	case 0:
 	case 1:
 		added.Bals = gen.Bals(1)
@@ -76,6 +106,7 @@ func VerifC07SubFunding() {
 	rt.Quiesce()
 	rt.Reach("c07.subfund")
 	nacc, _ := accsOn(s.w, s.ch.ID())
+	nacc -= s.accBase
 	// countersigned automatically only if safe; otherwise only as an ordinary
 	// acceptable update that the user's handler accepted
 	ordinary := obs.invoked && s.acceptable(to, actor, sigOK)
@@ -163,4 +194,76 @@ func VerifC07SubSettlement() {
 		rt.Assert("c07.subsettle.safe-settlement-accepted", nacc == 1)
 	}
 	rt.Assert("c07.subsettle.mutex-released", s.ch.VerifMachMtxFree())
+}
+
+// VerifC07SubFinal: the settlement interceptor is installed by the real
+// acceptUpdate when the peer's final sub-channel update is accepted; the
+// parent's settlement update is then safe only if it credits exactly the
+// balances of that accepted final state.
+func VerifC07SubFinal() {
+	gen.K, gen.Exact = 1, true
+	var subParams *channel.Params
+	sub0 := gen.Bals(2) // the sub-channel's current balances
+	amount := new(big.Int).Add(sub0[0], sub0[1])
+	var S channel.ID
+	s := newSituationN(0, func(s *situation) {
+		// sub-channel parameters: same participants, neither ledger nor virtual
+		parts := make([]map[wallet.BackendID]wallet.Address, 2)
+		parts[s.ownIdx] = map[wallet.BackendID]wallet.Address{channel.TestBackendID: s.w.Own.Address()}
+		parts[1-s.ownIdx] = map[wallet.BackendID]wallet.Address{channel.TestBackendID: s.w.Peer.Address()}
+		p, err := channel.NewParams(60, parts, channel.NoApp(), big.NewInt(99), false, false, channel.Aux{})
+		rt.Assume(err == nil)
+		subParams, S = p, p.ID()
+		// the parent holds S's sub-allocation
+		s.cur.Locked = []channel.SubAlloc{{ID: S, Bals: []channel.Bal{amount}, IndexMap: []channel.Index{}}}
+	})
+	rt.Assume(s.phase == channel.Acting)
+	subCur := &channel.State{ID: S, Version: uint64(rt.NondetU8()), App: channel.NoApp(), Data: channel.NoData(),
+		Allocation: channel.Allocation{Assets: s.cur.Assets, Backends: s.cur.Backends, Balances: channel.Balances{sub0}}}
+	sch := s.w.Adopt(subParams, s.ownIdx, channel.Acting, subCur, s.ch)
+	rt.Assert("c07.subfinal.is-sub-channel", sch.IsSubChannel())
+	// 1. the peer's final update of the sub-channel (arbitrary outcome with the same total)
+	fin := subCur.Clone()
+	fin.Version++
+	fin.IsFinal = true
+	f0 := gen.Bal()
+	f1 := new(big.Int).Sub(amount, f0)
+	rt.Assume(f1.Sign() >= 0)
+	fin.Balances = channel.Balances{{f0, f1}}
+	peer := 1 - s.ownIdx
+	m1 := &client.ChannelUpdateMsg{ChannelUpdate: client.ChannelUpdate{State: fin, ActorIdx: channel.Index(peer)}, Sig: s.w.Sign(1, fin)}
+	go s.w.Client.VerifHandleChannelUpdate(client.UpdateHandlerFunc(func(_ *channel.State, _ client.ChannelUpdate, r *client.UpdateResponder) {
+		ctx, cancel := context.WithTimeout(context.Background(), 1000000000)
+		defer cancel()
+		_ = r.Accept(ctx)
+	}), s.w.PeerWire, m1)
+	rt.Quiesce()
+	nsub, _ := accsOn(s.w, S)
+	rt.Assert("c07.subfinal.final-update-accepted", nsub == 1)
+	// 2. the client waits for the parent update that returns the funds
+	go func() {
+		ctx, cancel := context.WithTimeout(context.Background(), 5000000000)
+		defer cancel()
+		_ = s.ch.VerifAwaitSubChannelWithdrawal(ctx, S)
+	}()
+	// 3. the peer's settlement update on the parent with arbitrary credits
+	to := s.cur.Clone()
+	to.Version++
+	to.Locked = nil
+	to.Balances = channel.Balances{gen.Bals(2)}
+	sigOK, obs, actor := s.deliver(to)
+	safe := sigOK && s.successor(to)
+	credit := []*big.Int{f0, f1}
+	for q := 0; safe && q < 2; q++ {
+		safe = rt.BigEq(new(big.Int).Add(s.cur.Balances[0][q], credit[q]), to.Balances[0][q])
+	}
+	rt.Quiesce()
+	rt.Reach("c07.subfinal")
+	nacc, _ := accsOn(s.w, s.ch.ID())
+	ordinary := obs.invoked && s.acceptable(to, actor, sigOK)
+	rt.Assert("c07.subfinal.countersigned-only-if-safe", rt.Implies(nacc > 0, safe || ordinary))
+	if safe && int(actor) < 2 {
+		rt.Reach("c07.subfinal.safe")
+		rt.Assert("c07.subfinal.safe-settlement-accepted", nacc == 1)
+	}
 }
